@@ -287,9 +287,9 @@ func (s *Stream) writeFallback(streamStatus uint32, err error) error {
 // Close used to close the stream, which maybe block if there is StreamCallbacks running.
 // if a stream was leaked, it's also mean that some share memory was leaked.
 func (s *Stream) Close() error {
-	if s.getCallbacks() != nil {
-		atomic.StoreUint32(&s.callbackCloseState, uint32(callbackWaitExit))
-	}
+	// armed unconditionally: the callbacks may have been cleared already (reset() by the stream pool) while the
+	// callback goroutine is still running, and it is that goroutine which has to finish a deferred close.
+	atomic.StoreUint32(&s.callbackCloseState, uint32(callbackWaitExit))
 	if atomic.LoadUint32(&s.callbackInProcess) == 1 {
 		atomic.CompareAndSwapUint32(&s.state, uint32(streamOpened), uint32(streamHalfClosed))
 		// the close itself is done by the callback goroutine when OnData returns: release a read (or a Flush retry)
